@@ -505,7 +505,7 @@ class Engine:
                 return True
             finally:
                 c.close()
-        except sqlite3.Error:
+        except (sqlite3.Error, UnicodeDecodeError):  # the harness's own access fails on an already damaged file: skipped
             return False
 
     def _corrupt_file(self, dbpath, op):
